@@ -23,6 +23,8 @@ fn main() {
         "date" => s_date::line,
         "eval" => s_text::eval_line,
         "evalctx" => s_text::evalctx_line,
+        "evalsep" => s_text::evalsep_line,
+        "ratfmt" => s_bigrat::fmt_line,
         "json" => s_text::json_line,
         "inline" => s_text::inline_line,
         "intfn" => s_text::intfn_line,
